@@ -176,6 +176,10 @@ func Make(shape string, n int, seed int64) []byte {
 	case "crlfcut":
 		// a slice of a DOS text file cut between CR and LF at BOTH ends: starts with LF, ends with CR,
 		// every other CR is followed by LF (what a fixed block size does to a CRLF file)
+		if n < 2 {
+			b = append(b, '\n')
+			break
+		}
 		b = append(b, '\n')
 		for len(b) < n-1 {
 			w := words[zipf(r, len(words))]
